@@ -323,7 +323,11 @@ fn sizes_script(seed: u64, policy: &str) -> Script {
 /// (per-record bookkeeping that is not tied to payload bytes).
 fn empties_script(seed: u64, policy: &str) -> Script {
     let mut rng = Rng(seed.wrapping_mul(0xE3_7713).wrapping_add(11));
-    let mut steps = vec![Step::Create { q: 0 }, Step::Create { q: 1 }];
+    let mut steps = vec![Step::Create { q: 0 }, Step::Create { q: 1 }, Step::Create { q: 2 }];
+    // (a third queue carries bulk traffic in half of the scripts: roll-overs and GC passes happen while
+    // the other two hold nothing but zero-length records)
+    let with_bulk = seed % 2 == 0;
+    let mut bulk_next = 0u64;
     let mut payload_seed = seed << 20;
     let mut next = [0u64, 0u64];
     let mut first = [0u64, 0u64];
@@ -374,6 +378,14 @@ fn empties_script(seed: u64, policy: &str) -> Script {
             steps.push(Step::Truncate { q, p });
             first[q] = first[q].max(p + 1);
         }
+        if with_bulk && rng.chance(60) {
+            for _ in 0..3 {
+                payload_seed += 1;
+                steps.push(Step::Append { q: 2, pos: None, batch: vec![Payload { seed: payload_seed, len: 45_000 + rng.below(10_000) as usize, embed: None }] });
+                bulk_next += 1;
+            }
+            steps.push(Step::Truncate { q: 2, p: bulk_next - 1 });
+        }
         if rng.chance(20) {
             steps.push(Step::Restart);
         }
@@ -382,7 +394,7 @@ fn empties_script(seed: u64, policy: &str) -> Script {
     Script {
         name: format!("empties-{seed}"),
         policy: policy.to_string(),
-        queues: vec!["e".to_string(), format!("é{}", rng.below(10))],
+        queues: vec!["e".to_string(), format!("é{}", rng.below(10)), "bulk".to_string()],
         anchors: anchors(),
         steps,
         expect: None,
